@@ -133,6 +133,17 @@ def run_c08(ctx):
                   workers=8, simulate=(80 if q else 6000), depth=60, timeout=600)
     if r["violated"]:
         ctx.violation("HotStuff.tla violates %s" % r["violated"], "model", {"tlc_output_tail": r["out"][-5000:]})
+    # spec -> code: payload-carrying proposals whose batches arrive one at a time, in any order, or never
+    consts = dict(LOCAL_CONSTS, MaxRound="10", MaxParked="2", Variants="{0,1,2}", UseVotes="TRUE", UseTimeouts="FALSE", UseEnvSafe="TRUE",
+                  Depth=str(24 if q else 30), Weird="FALSE")
+    cfg = write_cfg(ctx, "MC_LocalPaySim.cfg", "PSSpec", consts, invariants=["EmitBeh", "VotedHave", "CommittedHave"], constraints=["SBound", "StopAtDepth"])
+    r = model_job(ctx, "behaviour generation with payloads and batch arrivals", "MC_LocalPaySim.tla", cfg, False, json.dumps(consts), workers=8,
+                  simulate=(300 if q else 4000), depth=400, timeout=600)
+    if r["violated"]:
+        ctx.violation("HotStuff.tla violates %s (payload simulation)" % r["violated"], "model", {"tlc_output_tail": r["out"][-5000:]})
+    behs = behaviours_from(r["out"])[: (300 if q else 4000)]
+    st0, rep0 = replay_local(ctx, "C08", spec, hs, behs, "pay")
+    ctx.extra["payload_behaviours_replayed"] = st0.get("behaviours")
     st, rep, rep2, tpath = run_full(ctx, hs, "avail", 6 if q else 80)
     ctx.samples = [{k: s[k] for k in ("n", "withheld_from", "drop_first_sync", "submitted", "e2e")} for s in st["summaries"][:3]]
     report_named(ctx, rep, tpath, "C08.", st, "a node voted for / committed a block whose batches it does not store")
